@@ -616,12 +616,43 @@ def check_generated(case, res=None):
                         res.sample({"generated_enum": decl["name"], "type": decl["type"], "declared": declared,
                                     "values": item["values"][:8], "results": [repr(E(v)) for v in item["values"][:8]]},
                                    limit=6)
+        # (c) "values from newer protocol versions survive a read-then-write unchanged": messages that carry
+        # undeclared ordinals are read with the generated deserializer and written back
+        from vlib import valuegen
+        from vlib.refinterp import Huge, Interp, Invalid, Unspecified, strip_sizes
+        for it in case.get("items", []):
+            c = gencase.find_class(s.an, it["cls"])
+            cls = s.cls(c)
+            for oj in it["objs"]:
+                obj = valuegen.from_json(oj)
+                ip = Interp(s.an)
+                try:
+                    ref = ip.serialize(c["body"], obj, False, False)
+                    outcome, back, rr = Interp(s.an).deserialize(c["body"], ref, False, False)
+                except (Invalid, Unspecified, Huge):
+                    continue
+                if "unknown_enum" not in ip.events or outcome != "ok" or strip_sizes(back) != obj or rr.pos != len(ref):
+                    continue
+                cj = {"kind": "generated", "tree": tree, "enums": [], "xml": gencase.xml_of(tree),
+                      "items": [{"cls": it["cls"], "dir": it["dir"], "objs": [oj]}]}
+                try:
+                    inst = cls.deserialize(s.reader(ref))
+                    w = s.writer(False)
+                    cls.serialize(w, inst)
+                    got = bytes(w.to_bytearray())
+                except Exception as e:  # noqa: BLE001
+                    raise Violation("unknown_ordinal_survives_read_then_write", cj, ref.hex(),
+                                    f"raised {type(e).__name__}: {e}"[:300], ".".join(it["cls"]))
+                if got != ref:
+                    raise Violation("unknown_ordinal_survives_read_then_write", cj, ref.hex(), got.hex(), ".".join(it["cls"]))
+                if res is not None:
+                    res.labels["gen.read_then_write_with_unknown_ordinal"] += 1
 
 
 @st.composite
 def generated_cases(draw):
     from vlib import spec, specgen
-    tree = dict(draw(specgen.trees(max_decls=6, max_packets=1)))
+    tree = dict(draw(specgen.trees(max_decls=6, max_packets=1, canonical=True)))
     tree.pop("_excluded", None)
     enums = []
     for d in spec.DIRS:
@@ -634,7 +665,18 @@ def generated_cases(draw):
                               st.sampled_from(near), st.booleans())
             vals = draw(st.lists(st.one_of(st.sampled_from(ords or [0]), other), min_size=1, max_size=12))
             enums.append({"enum": decl["name"], "values": vals})
-    return {"tree": tree, "enums": enums}
+    # classes with enum-typed members, objects biased towards undeclared ordinals
+    from vlib import valuegen
+    an = spec.Analysis(tree)
+
+    def has_enum(body):
+        return any(i["tag"] in ("field", "array") and an.resolve(i["type"])["kind"] == "enum"
+                   for i in spec.Analysis.flatten(body) if i.get("type"))
+    classes = [c for c in an.classes() if len(c["path"]) == 1 and has_enum(c["body"])][:2]
+    vg = valuegen.ValueGen(an, safe_strings=True, declared_share=3)
+    items = [{"cls": c["path"], "dir": c["dir"], "objs": [valuegen.to_json(vg.body(draw, c["body"])) for _ in range(3)]}
+             for c in classes]
+    return {"tree": tree, "enums": enums, "items": items}
 
 
 def plan(tier, seed):
